@@ -3,6 +3,7 @@ import ast
 import os
 import re
 
+from ..core import generic as G
 from ..core import astutil as A
 from ..core import bashlex as B
 from ..core import match as M
@@ -215,6 +216,10 @@ def run(ctx):
     vm = P.cls(MOD, "Doman").assigns.get("valid_mandir_re")
     ctx.check("R5", dm, vm is not None and A.try_literal(vm.args[0]) == "man[0-9n](f|p|pm)?$", "doman-section-regex", "sections: man[0-9n] with optional f/p/pm")
     ctx.floor("R5", 10)
+
+    # ---- R6 one helper call leaves nothing behind for the next: class-level defaults are never edited ------------------
+    G.no_shared_default_writes(ctx, "R6", ["src/pkgcore/ebuild/ebd_ipc.py"])
+    ctx.floor("R6", 1)
 
 
 def _conjuncts(test):
